@@ -18,6 +18,8 @@ use crate::pools::{DynProbe, Family, Put};
 pub enum Op {
     Insert,
     InsertWith,
+    /// insert_with whose initialiser panics (caught by the harness): the pool must be unchanged
+    InsertWithPanic,
     Remove(u8),
     Take(u8),
     IntoShared(u8),
@@ -39,6 +41,7 @@ impl Op {
         match self {
             Op::Insert => "insert",
             Op::InsertWith => "insert_with",
+            Op::InsertWithPanic => "insert_with_panic",
             Op::Remove(_) => "remove",
             Op::Take(_) => "take",
             Op::IntoShared(_) => "into_shared",
@@ -55,7 +58,7 @@ impl Op {
 
     pub fn to_text(self) -> String {
         match self {
-            Op::Insert | Op::InsertWith | Op::Shrink => self.name().to_string(),
+            Op::Insert | Op::InsertWith | Op::InsertWithPanic | Op::Shrink => self.name().to_string(),
             Op::Remove(i)
             | Op::Take(i)
             | Op::IntoShared(i)
@@ -77,6 +80,7 @@ impl Op {
         Some(match (name, arg) {
             ("insert", None) => Op::Insert,
             ("insert_with", None) => Op::InsertWith,
+            ("insert_with_panic", None) => Op::InsertWithPanic,
             ("shrink_to_fit", None) => Op::Shrink,
             ("remove", Some(i)) => Op::Remove(i),
             ("take", Some(i)) => Op::Take(i),
@@ -410,6 +414,10 @@ impl<P: Put<T>, T: HasSibs> World<P, T> {
             Op::InsertWith => {
                 self.do_insert(true, true);
             }
+            Op::InsertWithPanic => {
+                self.pool().insert_with_panic();
+                self.ops_on_pool += 1;
+            }
             Op::Remove(i) => self.remove_via(act[i as usize]),
             Op::DropHandle(i) => {
                 if P::FAMILY == Family::Raw {
@@ -519,7 +527,7 @@ impl<P: Put<T>, T: HasSibs> World<P, T> {
     }
 
     fn enabled(&self) -> Vec<Op> {
-        let mut ops = vec![Op::Insert, Op::InsertWith];
+        let mut ops = vec![Op::Insert, Op::InsertWith, Op::InsertWithPanic];
         let act = self.active_indexes();
         for (i, &idx) in act.iter().enumerate() {
             let i = i as u8;
